@@ -161,6 +161,16 @@ func routeStatusEqual(gatewayCtlrName string, prevParents, curParents []gatewayv
 	// and we have to ignore statuses written by other controllers when checking for equality.
 	// Therefore, we can't use slices.EqualFunc here because it cares about the order.
 
+	// The statuses written by this controller must also be the same in number: otherwise a status that is stored
+	// twice would compare equal to a single one and would never be cleaned up.
+	if countFunc(prevParents, func(p gatewayv1.RouteParentStatus) bool {
+		return p.ControllerName == gatewayv1.GatewayController(gatewayCtlrName)
+	}) != countFunc(curParents, func(p gatewayv1.RouteParentStatus) bool {
+		return p.ControllerName == gatewayv1.GatewayController(gatewayCtlrName)
+	}) {
+		return false
+	}
+
 	// First, we check if the prev status has any RouteParentStatuses that are no longer present in the cur status.
 	for _, prevParent := range prevParents {
 		if prevParent.ControllerName != gatewayv1.GatewayController(gatewayCtlrName) {
@@ -188,6 +198,18 @@ func routeStatusEqual(gatewayCtlrName string, prevParents, curParents []gatewayv
 	}
 
 	return true
+}
+
+// countFunc returns the number of elements of s that satisfy f.
+func countFunc[S ~[]E, E any](s S, f func(E) bool) int {
+	n := 0
+	for _, e := range s {
+		if f(e) {
+			n++
+		}
+	}
+
+	return n
 }
 
 func routeParentStatusEqual(p1, p2 gatewayv1.RouteParentStatus) bool {
@@ -299,6 +321,15 @@ func policyStatusEqual(gatewayCtlrName string, prev, cur v1alpha2.PolicyStatus) 
 	// statuses, and we have to ignore statuses written by other controllers when checking for equality.
 	// Therefore, we can't use slices.EqualFunc here because it cares about the order.
 
+	// The statuses written by this controller must also be the same in number (see routeStatusEqual).
+	if countFunc(prev.Ancestors, func(a v1alpha2.PolicyAncestorStatus) bool {
+		return a.ControllerName == gatewayv1.GatewayController(gatewayCtlrName)
+	}) != countFunc(cur.Ancestors, func(a v1alpha2.PolicyAncestorStatus) bool {
+		return a.ControllerName == gatewayv1.GatewayController(gatewayCtlrName)
+	}) {
+		return false
+	}
+
 	// First, we check if the prev status has any PolicyAncestorStatuses that are no longer present in the cur status.
 	for _, prevAncestor := range prev.Ancestors {
 		if prevAncestor.ControllerName != gatewayv1.GatewayController(gatewayCtlrName) {
@@ -390,6 +421,15 @@ func snippetsFilterStatusEqual(gatewayCtlrName string, currStatus, prevStatus []
 	// Since other controllers may update snippetsFilter status we can't assume anything about the order of the statuses,
 	// and we have to ignore statuses written by other controllers when checking for equality.
 	// Therefore, we can't use slices.EqualFunc here because it cares about the order.
+
+	// The statuses written by this controller must also be the same in number (see routeStatusEqual).
+	if countFunc(prevStatus, func(c ngfAPI.ControllerStatus) bool {
+		return c.ControllerName == gatewayv1.GatewayController(gatewayCtlrName)
+	}) != countFunc(currStatus, func(c ngfAPI.ControllerStatus) bool {
+		return c.ControllerName == gatewayv1.GatewayController(gatewayCtlrName)
+	}) {
+		return false
+	}
 
 	// First, we check if the prevStatus has any ControllerStatuses that are no longer present in the currStatus.
 	for _, prev := range prevStatus {
